@@ -6,6 +6,7 @@ mod mutants;
 mod ops;
 mod probe;
 mod rng;
+mod synth;
 
 use std::env;
 
@@ -72,6 +73,28 @@ fn main() {
             let seed: u64 = args[3].parse().unwrap();
             let count: usize = args[4].parse().unwrap();
             mutants::run(&args[2], seed, count, &args[5]).print();
+        }
+        "layouts" => {
+            // cfbh layouts <seed> <count> <outfile>
+            let seed: u64 = args[2].parse().unwrap();
+            let count: usize = args[3].parse().unwrap();
+            synth::run(seed, count, &args[4]).print();
+        }
+        "deviations" => {
+            let seed: u64 = args[2].parse().unwrap();
+            let count: usize = args[3].parse().unwrap();
+            extra::deviations(seed, count).print();
+        }
+        "cycledebug" => extra::cycle_debug(),
+        "configs" => {
+            let seed: u64 = args[2].parse().unwrap();
+            let count: usize = args[3].parse().unwrap();
+            extra::configs(seed, count).print();
+        }
+        "metaclock" => {
+            let seed: u64 = args[2].parse().unwrap();
+            let count: usize = args[3].parse().unwrap();
+            extra::meta_clock(seed, count).print();
         }
         "cycles" => {
             let seed: u64 = args[2].parse().unwrap();
